@@ -356,9 +356,9 @@ Definition spec_obs (c : case) : list val :=
                    end in
   [ none_val; none_val; back; back; lookup; lookup; lookup_str; lookup_str;
     put_some (fun v => VL [VI 7; VT v]) vp;
-    match vp, spec_suffix (c_els c), c_app c with
-    | Some v, Some s, Some app => put_text (app ++ v ++ s)
-    | _, _, _ => none_val
+    match vp, spec_suffix (c_els c), c_app c, decode_path_info (c_script c) with
+    | Some v, Some s, Some app, Ok _ => put_text (app ++ v ++ s)
+    | _, _, _, _ => none_val
     end;
     match vp, spec_suffix (c_els c), decode_path_info (c_script c) with
     | Some v, Some s, Ok d =>
